@@ -93,7 +93,10 @@ def gen_table(rng, info: dict, kind: str) -> pd.DataFrame:  # noqa: ANN001
         for r in rng.sample(range(nrows), min(nrows - 1, rng.randint(1, 2))):
             df.loc[r, "kz"] = 0.0
             fail_rows.append(r)
-    labels = rng.choice(["default", "offset", "str", "shuffled"])
+    labels = rng.choice(["default", "offset", "str", "shuffled", "duplicate"])
+    if labels == "duplicate" and nrows >= 2:
+        # row labels need not be unique (pd.concat of two tables without ignore_index): rows are still rows
+        df.index = [i % max(1, (nrows + 1) // 2) for i in range(nrows)]
     if labels == "offset":
         df.index = [10 + 3 * i for i in range(nrows)]
     elif labels == "str":
@@ -220,7 +223,7 @@ def run_case(case: dict) -> dict:
     modes += [{"parallel": True, "cores": c} for c in cores]
     viols: list[dict] = []
     counters: dict[str, int] = {f"kind:{kind}": 1, "rows": len(table), "failing_rows_planned": len(fail_rows),
-                                "with_y0": int("y0" in extra), "column_overrides_assignment_defined_parameter": int(info["ia"] and "k1" in table.columns), "y0_overlaps_table_column": int(any(v in table.columns for v in extra.get("y0", {})))}
+                                "with_y0": int("y0" in extra), "duplicate_row_labels": int(not table.index.is_unique), "column_overrides_assignment_defined_parameter": int(info["ia"] and "k1" in table.columns), "y0_overlaps_table_column": int(any(v in table.columns for v in extra.get("y0", {})))}
     ctx = {"kind": kind, "table": {"index": [str(i) for i in table.index], **{c: table[c].tolist() for c in table.columns}},
            "extra": {kk: (v.tolist() if hasattr(v, "tolist") else str(v)) for kk, v in extra.items()}, "ia_model": info["ia"], "spec": spec}
     # ---- oracle per row ------------------------------------------------------
@@ -267,8 +270,20 @@ def run_case(case: dict) -> dict:
                     model.update_variables({v: 7.0 for v in info["variables"][:1]})
                 flx, var = res.fluxes, res.variables
                 v = compare(kind, table, inner, expected, var, flx, pristine)
+                mech_ = None
+                if v and not table.index.is_unique and k not in ("steady_state",):
+                    # attribution: the same rows under unique labels must come back right (the containers of these kinds are
+                    # keyed by row label and cannot hold two rows with one label)
+                    try:
+                        t2 = table.reset_index(drop=True)
+                        r2 = run_scan(kind, copy.deepcopy(pristine), t2, extra, mode)
+                        if not compare(kind, t2, inner, expected, r2.variables, r2.fluxes, pristine):
+                            mech_ = "C09-duplicate-row-labels"
+                            counters["unique_label_twin_agrees"] = counters.get("unique_label_twin_agrees", 0) + 1
+                    except Exception:  # noqa: BLE001
+                        mech_ = None
                 for x in v:
-                    viols.append(core.viol(x.pop("what"), None, mode=tag, phase=phase, **x, **ctx))
+                    viols.append(core.viol(x.pop("what"), mech_, mode=tag, phase=phase, **x, **ctx))
                 counters["rows_compared"] = counters.get("rows_compared", 0) + len(table)
                 if v:
                     break
